@@ -1,7 +1,7 @@
 PROP = dict(
     properties="Properties/C10.v",
     harness_mods=["Harness/C10.v"],
-    runs=[dict(cmd="c10", quick=32, thorough=1200)],
+    runs=[dict(cmd="c10", quick=24, thorough=1000)],
     trusted_base=[
         "hand-written Gallina model coq/Trie/Model.v of pkg/core/mpt (put, delete, put_batch, get, traverse/Seek/Find, GetProof, VerifyProof, node codec), tied to the Go code by differential evaluation only",
         "coq/Common/Sha256.v: executable SHA-256, not proved against FIPS 180-4, compared with crypto/sha256 on every run; no theorem depends on it (theorems are over an arbitrary H)",
